@@ -12,14 +12,20 @@ GEN_MODULES = ['Divisor', 'Quota']
 REQUIRED = ['getNBest_shape', 'plurality_shape', 'quotaSelector_refusals', 'ha_shape', 'haResult_sum', 'ge_keys_nodup',
             'electedOf_map_cand', 'electedOf_append', 'electedOf_replicate_tie', 'getNBest_shape_of_keys',
             'lr_shape', 'qd_shape', 'quota_pos', 'lr_rounded_quota_zero_witness',
-            'getNBest_struct', 'breakSecondOrder_shape', 'copeland_shape', 'schulze_shape', 'minimax_shape']
+            'getNBest_struct', 'breakSecondOrder_shape', 'copeland_shape', 'schulze_shape', 'minimax_shape',
+            'positional_shape', 'positional_refusals', 'scorerOK_of_wf', 'approval_shape', 'approval_refusals']
 PROVED_FAMILIES = ['plurality', 'ha_d_hondt', 'ha_sainte_lague', 'ha_imperiali', 'ha_danish', 'ha_macau',
                    'quota_selector_droop', 'quota_selector_hare',
                    'lr_hare', 'lr_hagenbach_bischoff', 'lr_imperiali', 'lr_droop', 'lr_hare_rounded', 'lr_hagenbach_bischoff_ceil',
                    'lr_hagenbach_bischoff_rounded', 'qd_hare', 'qd_droop',
                    'condorcet_copeland_2o', 'condorcet_copeland_raw', 'condorcet_schulze', 'condorcet_minimax_winvotes',
-                   'condorcet_minimax_margins', 'condorcet_minimax_pwo']
+                   'condorcet_minimax_margins', 'condorcet_minimax_pwo',
+                   'positional_borda', 'positional_borda0', 'positional_dowdall', 'positional_geometric', 'positional_modified_borda',
+                   'positional_fixed_top3', 'approval_av', 'approval_sav']
 NAMES = Names(prefix='cand')
+POSITIONAL = {'positional_borda': {'s': 'Borda', 'base': 1}, 'positional_borda0': {'s': 'Borda', 'base': 0},
+              'positional_dowdall': {'s': 'Dowdall'}, 'positional_geometric': {'s': 'Geometric', 'base': 2},
+              'positional_modified_borda': {'s': 'ModifiedBorda'}, 'positional_fixed_top3': {'s': 'FixedTop', 'top': 3}}
 CONDORCET_MODELLED = ('rankedpairs_winvotes', 'rankedpairs_margins', 'rankedpairs_pwo', 'copeland_2o', 'copeland_raw', 'schulze',
                       'kemeny_young', 'minimax_winvotes', 'minimax_margins', 'minimax_pwo')
 _FAMS = None
@@ -180,13 +186,33 @@ def model_line(case):
         pw = cv.RankedToCondorcetVotes().convert(fam_mod.build('ranked', case['prof'], NAMES))
         return {'op': 'eval', 'name': f[len('condorcet_'):], 'n': case['n'],
                 'votes': [[NAMES.i(a), NAMES.i(b), num_str(w)] for (a, b), w in pw.items()]}
+    if f in POSITIONAL:
+        return {'op': 'positional_plurality', 'scorer': POSITIONAL[f], 'votes': case['prof'], 'n': case['n']}
+    if f in ('approval_av', 'approval_sav'):
+        return {'op': 'approval_plurality', 'split': f == 'approval_sav', 'votes': case['prof'], 'n': case['n']}
     if f.startswith('quota_selector_'):
         return {'op': 'quota_selector', 'n': case['n'], 'votes': case['prof'], 'quota': f[len('quota_selector_'):],
                 'accept_equal': True, 'on_more': 'select'}
     return None
 
 
+def has_shared(prof):
+    return any(isinstance(it, list) for b, _ in prof for it in b)
+
+
+def sel_unordered(obs):
+    """selection result up to the order of the individually elected candidates (the order among equal scores follows the
+    iteration order of a frozenset / the insertion order of an unordered set: C10's subject, not C08's)"""
+    if isinstance(obs, dict):
+        return obs
+    obs = canon(obs)
+    return [sorted(x for x in obs if not isinstance(x, dict)), [x for x in obs if isinstance(x, dict)]]
+
+
 def compare(case, iobs, mobs):
+    if case['family'] in POSITIONAL and has_shared(case['prof']):
+        a, b = sel_unordered(iobs), sel_unordered(mobs)
+        return None if a == b else f'impl={json.dumps(a)} model={json.dumps(b)} (order-insensitive: shared ranks)'
     if case['family'].startswith('condorcet_'):
         import props.C05 as P05
         return P05.compare({'op': 'eval', 'name': case['family'][len('condorcet_'):]}, iobs, mobs)
